@@ -64,3 +64,13 @@ claim("C06",
   "Runtime monitoring: every List call (Push*, Insert*, Move*, Remove, Init, PushBackList/PushFrontList of another list and of itself, Front/Back) with element arguments drawn from live-here / live-elsewhere / removed / never-inserted, and every Ring call (NewRing incl. n<=0, zero rings, Next, Prev, Move any sign, Link same/other/itself, Unlink, Len, Do) is made on both libraries; return values, Len, forward and backward traversals and Next/Prev of every handle ever issued must agree after every call; a self-push that never returns is caught by the per-case watchdog and confirmed by a re-run. Held on the histories of this run.",
   "Trusted: Go toolchain incl. container/list and container/ring as the reference. Nil element/receiver arguments are not generated; elements orphaned by Init() (stale owner pointer in both libraries) are retired.",
   "DESIGN.md section 4, C06")
+claim("C04",
+  "recorded-history linearizability checking (porcupine, per key) over (a) a serialized PRNG scheduler driving the real code through add-only hook sites and (b) free-running goroutines; sequential lock-step model; Go race detector (+checkptr) on unrecorded rounds",
+  "Runtime monitoring in four modes: seq - sequential histories incl. Range vs a map[K]V, logging the read/dirty/expunged layout states reached; tierb - after a random sequential prefix 2..4 workers x 1..6 calls run under a serialized scheduler that switches at every atomic/mutex hook site (uniform, sticky and PCT-style strategies), history judged by porcupine per key; lin - 2..16 free-running goroutines with hook-injected yields, same oracle (plain and -race builds); race - up to 64 goroutines without recorder under the race detector. Range is judged at the property's strength (visited pair = a Load hit inside the call's interval; unvisited key = a miss only if no mutating call on it overlaps; no key twice). Sampling, not enumeration: distinct schedules and switch site pairs are reported.",
+  "Trusted: Go toolchain/runtime/race detector, porcupine v1.3.0, the per-key sequential model. Interleaving granularity in tierb is the hook sites under sequential consistency; weak-memory effects only as far as x86-64 + the Go runtime exhibit them in the free-running modes.",
+  "DESIGN.md section 4, C04")
+claim("C05",
+  "recorded-history linearizability checking (porcupine, per value, state bool) + conservation law at quiescence, over the serialized PRNG scheduler and free-running goroutines; Go race detector on unrecorded rounds",
+  "Runtime monitoring: Add/Remove/Has and singleton AddSet/RemoveSet calls are recorded with invocation/response stamps and checked per value against an atomic-set model (successful Adds and Removes alternate, starting from the prefix state, consistent with real time; Has agrees); multi-element AddSet/RemoveSet counts enter the conservation law initial + successful Adds + AddSet counts - successful Removes - RemoveSet counts == final Len == |final Slice|; per-value balance and Len bounds are checked; final Has/Slice/Len agree. Modes tierb (serialized scheduler over the sync2.Map hooks), lin (free-running, plain and -race), race (no recorder, race detector).",
+  "Trusted: Go toolchain/runtime/race detector, porcupine v1.3.0. Len during concurrency is only bounded, as the property allows.",
+  "DESIGN.md section 4, C05")
